@@ -35,6 +35,12 @@ def run(cx: Cx):
         v = s.ev.data.get('value')
         if s.kind == 'rebind' and s.owner_q == COLL + 'Collector.__init__' and isinstance(v, Fresh) and v.kind == 'list' and not v.items:
             cx.ok('R-DISC', 'records start as a fresh empty list', where=s.where, function=s.fn.qualname)
+        elif s.kind == 'append' and not all(o.rsplit('.', 1)[-1].split('#')[0] == 'collect' for o in (s.owners or [s.owner_q])):
+            # one record per scheduled timestep: the record is appended by collect(), once; an execute() that also appends what
+            # collect() returns doubles the records of every collector whose collect() returns its record as well
+            cx.violation('R-DISC', s.fn.qualname, 'records-appended-by-collect-only',
+                         f"{s.describe()}: records are appended outside collect() (reached from {sorted(s.owners or [s.owner_q])}): a "
+                         f"collector whose collect() already appends holds two records for that timestep", where=s.where)
         elif s.kind in ('append', 'clear'):
             cx.ok('R-DISC', f"records.{s.kind}", where=s.where, function=s.fn.qualname)
         else:
